@@ -29,7 +29,7 @@ LEVEL_NOTE = (
     "isoformat()/str()/encodebytes render each value as documented; dataclass and union members (C08/C11); depth "
     "beyond what Registry.get composes by construction."
 )
-ASSUMPTIONS = ["helper type predicates behave as the stdlib-only model in dispatch.HELPER_MODEL",
+ASSUMPTIONS = ["helper type predicates behave as the stdlib-only model in dispatch.HELPER_MODEL on types outside the probe set of R02.8 (on the probe set the agreement is checked)",
                "class hierarchy of the analysing interpreter's standard library"]
 
 T_FORMAT = {
@@ -211,3 +211,27 @@ def run(repo, rep, tier):  # noqa: F811 -- round-6 remedies (core/round6.py)
 _ADDR6C = '  Borrowed: R17.13, R11.13, R16.7.'
 EXPLANATION += _ADDR6C
 LEVEL_TEXT += _ADDR6C
+
+
+_run_before_r7 = run
+
+
+def run(repo, rep, tier):  # noqa: F811 -- round 7: the type-level helpers are evaluated, not trusted (core/typeeval.py, typepreds.py)
+    _run_before_r7(repo, rep, tier)
+    if getattr(rep, "borrowed", False):
+        return
+    from ..core import typepreds as _tp
+    _tp.model_agreement(repo, rep, "R02.8", tier)
+    _tp.reference_cases(repo, rep, "R02.9")
+
+
+_ADDR7 = (" R02.8: every type predicate that the dispatch simulation replaces by a stdlib-only model (get_type_origin, get_args, is_union, "
+          "is_optional, is_literal, is_annotated, is_generic, is_named_tuple, is_typed_dict, is_new_type, is_type_var[_any|_tuple], is_unpack, "
+          "is_final, is_self, is_required, is_not_required, is_hashable[_type], ...) is interpreted from its own source over every catalogue type "
+          "and 50 special forms; the helper's answer must equal the model's (the model is thereby no longer trusted). R02.9: the helpers the "
+          "simulation summarises symbolically (type_name, get_generic_name, resolve_type_params, substitute_type_params, collect_type_params, "
+          "not_none_type_arg, is_variable_length_tuple, get_literal_values, get_class_that_defines_method/_field, "
+          "get_function_arg/return_annotation, is_class_var, is_init_var) are interpreted over a hand-written table of 135 argument -> documented "
+          "result cases.")
+EXPLANATION += _ADDR7
+LEVEL_TEXT += _ADDR7
